@@ -2,7 +2,9 @@
  * binary file is read back and compared with (a) the Lean codec, (b) an independent reader
  * below, (c) per-thread tallies taken through the ROOTSIM_VERIF trace hook.
  *
- * usage: hc20 <seed> <tier 0|1> <outdir>
+ * usage: hc20 <seed> <tier 0|1> <outdir> [<script file: `f6` lines, the first one the F6 witness schedule>]
+ *        hc20 gen <seed> <n> <file>        random `f6` schedules
+ *        hc20 probe <script file> <dir>    only the variant probe (prints {"fix6":0|1|-1})
  *   <outdir>/ops     : protocol lines for `driver stats`
  *   <outdir>/c       : the C results for the same lines
  *   <outdir>/oracle  : S oracle, one line per failure of the property on the implementation
@@ -12,9 +14,21 @@
  *
  * log/stats.c is #included (and left out of the linked core sources) so that its file-static
  * structs are visible for the sizeof/offsetof facts; everything else is linked unchanged.
+ * The only interposition: the entry point `stats_on_gvt` of the included stats.c is renamed, and the symbol the
+ * rest of the core calls is a one-line wrapper below that notes the call (who, which value) and forwards it.
+ * That is how calls from outside the worker loop are seen (the repaired flush loop of gvt_msg_drain, which
+ * has no VK_GVT trace point).
+ *
+ * Variant of the tree (finding F6 / its repair): observed, not configured. The first scripted schedule (the
+ * kernel-checked F6 witness `RootSim.C20.same_record_count_counterexample_stop`) is replayed on the real
+ * threads first: unequal record counts => the pinned flush loop (drops the value), equal => the repaired one.
+ * The result goes to the driver as the first ops line (`variant <0|1>`) and into the JSON line (`fix6`).
  */
+#define stats_on_gvt hc20_real_stats_on_gvt
 #include "vcommon.h"
 #include <log/stats.c> /* the REAL code under test */
+#undef stats_on_gvt
+void stats_on_gvt(simtime_t gvt); /* the symbol parallel.c (and the repaired gvt.c) call: defined below */
 #include <core/verif.h>
 #include <gvt/termination.h>
 
@@ -23,6 +37,7 @@
 #include <signal.h>
 #include <stdatomic.h>
 #include <sys/mman.h>
+#include <sys/stat.h>
 #include <sys/wait.h>
 #include <time.h>
 #include <unistd.h>
@@ -58,7 +73,12 @@ struct ttrace {
 	uint64_t cur[C_N];            /* tallies since the previous VK_GVT */
 	uint64_t (*per)[C_N];         /* tallies of each closed period */
 	uint64_t *gvt;                /* traced value (bits) of each VK_GVT */
-	unsigned long n_gvt;
+	unsigned long n_gvt;          /* values handed to stats_on_gvt on this thread (worker loop + flush loop) */
+	unsigned long n_flush;        /* ... of which from the flush loop of gvt_msg_drain (repaired tree only) */
+	unsigned long n_stray;        /* stats_on_gvt calls from anywhere else */
+	unsigned long n_lost;         /* VK_GVT traced in the worker loop but no stats_on_gvt call followed */
+	int gvt_pending;              /* VK_GVT traced, its stats_on_gvt call not yet seen */
+	int in_flush;                 /* between VK_DRAIN_STAGE 1 and 2 */
 	uint64_t left[C_N];           /* the real stats_cur at VP_WORKER_FINI */
 	int left_valid, fini_seen;
 	unsigned long hist;           /* processed entries currently held in p_msgs of this thread's LPs */
@@ -108,6 +128,34 @@ static void note_forward(struct ttrace *t)
 	tr_unit(t, 'f');
 }
 
+/* a GVT value reaches the statistics of this thread: the period is closed */
+static void note_gvt(struct ttrace *t, uint64_t bits)
+{
+	if(t->n_gvt < MAXREC) {
+		memcpy(t->per[t->n_gvt], t->cur, sizeof(t->cur));
+		t->gvt[t->n_gvt] = bits;
+	}
+	t->n_gvt++;
+	memset(t->cur, 0, sizeof(t->cur));
+	tr_arg(t, 'g', bits, 1);
+}
+
+/* the interposed entry point (see the head of the file) */
+void stats_on_gvt(simtime_t gvt)
+{
+	if(rid < MAXT) {
+		struct ttrace *t = &tt[rid];
+		if(t->gvt_pending) {
+			t->gvt_pending = 0; /* the worker loop: VK_GVT has announced this value */
+		} else {
+			if(t->in_flush) t->n_flush++; /* the flush loop of gvt_msg_drain (repaired tree) */
+			else t->n_stray++;
+			note_gvt(t, dbl_bits(gvt));
+		}
+	}
+	hc20_real_stats_on_gvt(gvt);
+}
+
 /* strong definitions of the ROOTSIM_VERIF hooks */
 void verif_trace(unsigned kind, uint64_t a, uint64_t b, uint64_t c)
 {
@@ -142,14 +190,14 @@ void verif_trace(unsigned kind, uint64_t a, uint64_t b, uint64_t c)
 			}
 			t->fossil = 0;
 			break;
-		case VK_GVT:
-			if(t->n_gvt < MAXREC) {
-				memcpy(t->per[t->n_gvt], t->cur, sizeof(t->cur));
-				t->gvt[t->n_gvt] = a;
-			}
-			t->n_gvt++;
-			memset(t->cur, 0, sizeof(t->cur));
-			tr_arg(t, 'g', a, 1);
+		case VK_GVT: /* the worker loop of parallel_thread_run */
+			if(t->gvt_pending) t->n_lost++;
+			t->gvt_pending = 1;
+			note_gvt(t, a);
+			break;
+		case VK_DRAIN_STAGE:
+			if(a == 1) t->in_flush = 1;
+			else if(a == 2) t->in_flush = 0;
 			break;
 		case VK_TERM_VOTE:
 			if(atomic_fetch_add(&votes, 1U) + 1 >= cfg.n_threads && cfg.mode != M_SCRIPT)
@@ -469,6 +517,7 @@ static const char *render(const unsigned char *p, size_t n, struct sb *out, stru
 /* ------------------------------------------------------------------------------------------ */
 static FILE *f_ops, *f_c, *f_or, *f_runs, *f_sum;
 static unsigned long ops_lines;
+static int tree_fix6; /* the observed variant: 1 = the flush loop of gvt_msg_drain records, 0 = drops, -1 = probe failed */
 
 static void emit_layout(void)
 {
@@ -569,6 +618,10 @@ static void post_run(unsigned run, const char *bin_path)
 		fprintf(f_or, " traced_gvts=");
 		for(unsigned t = 0; t < nt && t < MAXT; ++t)
 			fprintf(f_or, "%s%lu", t ? "," : "", tt[t].n_gvt);
+		fprintf(f_or, " flush_gvts=");
+		for(unsigned t = 0; t < nt && t < MAXT; ++t)
+			fprintf(f_or, "%s%lu", t ? "," : "", tt[t].n_flush);
+		fprintf(f_or, " fix6=%d", tree_fix6);
 		fputc('\n', f_or);
 		n_or++;
 	}
@@ -577,7 +630,7 @@ static void post_run(unsigned run, const char *bin_path)
 			ORACLE("GVTORDER run=%u k=%llu prev=%llx cur=%llx\n", run, (unsigned long long)k,
 			    (unsigned long long)pa.ngvt[k - 1], (unsigned long long)pa.ngvt[k]);
 	unsigned long tot[C_N] = {0};
-	unsigned long rec_total = 0;
+	unsigned long rec_total = 0, flush_total = 0;
 	for(unsigned t = 0; t < nt && t < MAXT; ++t) {
 		struct ttrace *x = &tt[t];
 		tr_flush_unit(x);
@@ -608,6 +661,10 @@ static void post_run(unsigned run, const char *bin_path)
 				ORACLE("UNDONE run=%u thread=%u rec=%llu cum_undone=%llu cum_forward=%llu\n", run, t,
 				    (unsigned long long)k, (unsigned long long)cum_u, (unsigned long long)cum_f);
 		}
+		if(x->n_stray || x->n_lost || x->gvt_pending)
+			ORACLE("STATSCALLS run=%u thread=%u stray=%lu lost=%lu pending=%d\n", run, t, x->n_stray, x->n_lost,
+			    x->gvt_pending);
+		flush_total += x->n_flush;
 		if(x->hist_viol) ORACLE("HISTORY run=%u thread=%u violations=%lu\n", run, t, x->hist_viol);
 		if(!x->left_valid) ORACLE("NOFINI run=%u thread=%u\n", run, t);
 		for(int c = 0; c < C_N; ++c)
@@ -684,9 +741,9 @@ static void post_run(unsigned run, const char *bin_path)
 			free(cp);
 		}
 	}
-	fprintf(f_sum, "%u ok mode=%u threads=%u nrec=%llu recs=%lu fwd=%lu rb=%lu undo=%lu ckpt=%lu sil=%lu anti=%lu mismatch=%d oracle=%lu bytes=%zu corrupt=%lu\n",
+	fprintf(f_sum, "%u ok mode=%u threads=%u nrec=%llu recs=%lu fwd=%lu rb=%lu undo=%lu ckpt=%lu sil=%lu anti=%lu mismatch=%d oracle=%lu bytes=%zu corrupt=%lu flush=%lu\n",
 	    run, cfg.mode, nt, (unsigned long long)pa.n_rec, rec_total, tot[0], tot[1], tot[2], tot[3], tot[4], tot[5],
-	    mismatch, n_or, n, n_corrupt);
+	    mismatch, n_or, n, n_corrupt, flush_total);
 }
 
 static void child_run(unsigned run, const char *outdir)
@@ -871,6 +928,68 @@ static int supervised_run(unsigned run, const char *outdir, unsigned max_attempt
 	return 0;
 }
 
+static void open_outputs(const char *outdir, char *sum_path, size_t sum_len)
+{
+	char path[600];
+	snprintf(path, sizeof(path), "%s/ops", outdir);
+	f_ops = xfopen(path, "a");
+	snprintf(path, sizeof(path), "%s/c", outdir);
+	f_c = xfopen(path, "a");
+	snprintf(path, sizeof(path), "%s/oracle", outdir);
+	f_or = xfopen(path, "a");
+	snprintf(path, sizeof(path), "%s/runs", outdir);
+	f_runs = xfopen(path, "a");
+	snprintf(sum_path, sum_len, "%s/summary", outdir);
+	f_sum = xfopen(sum_path, "a");
+}
+static void close_outputs(void)
+{
+	fclose(f_ops); fclose(f_c); fclose(f_or); fclose(f_runs); fclose(f_sum);
+}
+
+/* Which flush loop does this tree have? Replays the first schedule of the script file (the F6 witness: under it
+ * one thread receives a completed round's value in the flush loop of gvt_msg_drain while the other records it in
+ * its worker loop) on the real threads, in a scratch directory, and compares the record counts in the produced file:
+ * equal => the flush loop records (repaired), unequal => it drops (pinned), no result => -1. */
+static int probe_variant(const char *script_file, const char *dir)
+{
+	static char line[4500];
+	char sum_path[600], path[600];
+	FILE *sf = fopen(script_file, "r");
+	if(!sf) return -1;
+	int ok = fgets(line, sizeof(line), sf) && !parse_f6(line);
+	fclose(sf);
+	if(!ok) return -1;
+	mkdir(dir, 0777);
+	open_outputs(dir, sum_path, sizeof(sum_path));
+	unsigned long h0 = hangs, c0 = crashes, g0 = gave_up;
+	int done = supervised_run(0, dir, 2);
+	close_outputs();
+	hangs = h0; crashes = c0; gave_up = g0;
+	ops_lines = 0;
+	if(!done) return -1;
+	/* the C side of the run's `f6` line: "done <records of thread 0> <records of thread 1> ..." */
+	snprintf(path, sizeof(path), "%s/c", dir);
+	FILE *f = fopen(path, "r");
+	if(!f) return -1;
+	int res = -1;
+	static char cl[1 << 16];
+	while(fgets(cl, sizeof(cl), f)) {
+		if(strncmp(cl, "done", 4)) { /* long lines (hex dumps): skip to their end */
+			while(!strchr(cl, '\n') && fgets(cl, sizeof(cl), f)) {}
+			continue;
+		}
+		unsigned long v[MAXT];
+		int n = sscanf(cl, "done %lu %lu %lu %lu", &v[0], &v[1], &v[2], &v[3]);
+		if(n < 2) continue;
+		res = 1;
+		for(int i = 1; i < n; ++i)
+			if(v[i] != v[0]) res = 0;
+	}
+	fclose(f);
+	return res;
+}
+
 int main(int argc, char **argv)
 {
 	if(argc >= 5 && !strcmp(argv[1], "gen")) { /* hc20 gen <seed> <n> <file> */
@@ -880,24 +999,34 @@ int main(int argc, char **argv)
 		fclose(f);
 		return 0;
 	}
+	if(argc >= 4 && !strcmp(argv[1], "probe")) { /* hc20 probe <script file> <dir> */
+		vrng_state = 0x5c20;
+		printf("{\"fix6\":%d}\n", probe_variant(argv[2], argv[3]));
+		return 0;
+	}
 	if(argc < 4) return 2;
 	uint64_t seed = strtoull(argv[1], NULL, 0);
 	int tier = atoi(argv[2]);
 	const char *outdir = argv[3];
 	const char *script_file = argc > 4 ? argv[4] : NULL;
 	vrng_state = seed;
-	char path[512];
-	snprintf(path, sizeof(path), "%s/ops", outdir);
-	f_ops = xfopen(path, "a");
-	snprintf(path, sizeof(path), "%s/c", outdir);
-	f_c = xfopen(path, "a");
-	snprintf(path, sizeof(path), "%s/oracle", outdir);
-	f_or = xfopen(path, "a");
-	snprintf(path, sizeof(path), "%s/runs", outdir);
-	f_runs = xfopen(path, "a");
-	char sum_path[512];
-	snprintf(sum_path, sizeof(sum_path), "%s/summary", outdir);
-	f_sum = xfopen(sum_path, "a");
+	char sum_path[600];
+	/* observe the variant of the tree first: the driver must know it before the first `f6` line */
+	tree_fix6 = 0;
+	if(script_file) {
+		char pdir[600];
+		snprintf(pdir, sizeof(pdir), "%s/probe", outdir);
+		tree_fix6 = probe_variant(script_file, pdir);
+		vrng_state = seed; /* the probe drew perturbation seeds */
+	}
+	open_outputs(outdir, sum_path, sizeof(sum_path));
+	fprintf(f_ops, "variant %d\n", tree_fix6 == 1);
+	fprintf(f_c, "ok\n");
+	ops_lines++;
+	if(tree_fix6 < 0) {
+		fprintf(f_or, "PROBE failed: the F6 witness schedule did not complete on the real threads\n");
+		tree_fix6 = 0;
+	}
 
 	emit_layout();
 	fflush(NULL);
@@ -932,21 +1061,22 @@ int main(int argc, char **argv)
 		}
 		fclose(sf);
 	}
-	fclose(f_ops); fclose(f_c); fclose(f_or); fclose(f_runs); fclose(f_sum);
+	close_outputs();
 
 	/* aggregate the per-run summaries */
 	FILE *f = xfopen(sum_path, "r");
 	char line[1024];
 	unsigned long runs_ok = 0, recs = 0, tot[6] = {0}, mism = 0, by_mode[M_COUNT] = {0}, by_thr[MAXT + 1] = {0};
 	unsigned long zero_rounds = 0, one_round = 0, many_rounds = 0, max_rounds = 0, bytes = 0, oracle = 0, corrupt = 0;
+	unsigned long flush_recs = 0, flush_runs = 0;
 	while(fgets(line, sizeof(line), f)) {
 		unsigned r_, mode, thr;
 		unsigned long long nrec;
-		unsigned long r, a[6], o, co;
+		unsigned long r, a[6], o, co, fl;
 		int mm;
 		size_t by;
-		if(sscanf(line, "%u ok mode=%u threads=%u nrec=%llu recs=%lu fwd=%lu rb=%lu undo=%lu ckpt=%lu sil=%lu anti=%lu mismatch=%d oracle=%lu bytes=%zu corrupt=%lu",
-		       &r_, &mode, &thr, &nrec, &r, &a[0], &a[1], &a[2], &a[3], &a[4], &a[5], &mm, &o, &by, &co) != 15)
+		if(sscanf(line, "%u ok mode=%u threads=%u nrec=%llu recs=%lu fwd=%lu rb=%lu undo=%lu ckpt=%lu sil=%lu anti=%lu mismatch=%d oracle=%lu bytes=%zu corrupt=%lu flush=%lu",
+		       &r_, &mode, &thr, &nrec, &r, &a[0], &a[1], &a[2], &a[3], &a[4], &a[5], &mm, &o, &by, &co, &fl) != 16)
 			continue;
 		runs_ok++;
 		recs += r;
@@ -962,6 +1092,8 @@ int main(int argc, char **argv)
 		bytes += by;
 		oracle += o;
 		corrupt += co;
+		flush_recs += fl;
+		flush_runs += fl != 0;
 	}
 	fclose(f);
 	printf("{\"runs\":%lu,\"thread_records\":%lu,\"forward\":%lu,\"rollbacks\":%lu,\"undone\":%lu,\"ckpts\":%lu,"
@@ -970,9 +1102,11 @@ int main(int argc, char **argv)
 	       "\"corrupted_decodes\":%lu,\"scripted_runs\":%lu,\"scripted_hung\":%lu,"
 	       "\"hang_retries\":%lu,\"crashes\":%lu,\"gave_up\":%lu,\"oracle_lines\":%lu,"
 	       "\"by_mode\":{\"pred\":%lu,\"termtime\":%lu,\"stop_init\":%lu,\"stop_mid\":%lu,\"script\":%lu,\"pred_at_init\":%lu,\"dryup\":%lu},"
-	       "\"by_threads\":{\"1\":%lu,\"2\":%lu,\"3\":%lu,\"4\":%lu}}\n",
+	       "\"by_threads\":{\"1\":%lu,\"2\":%lu,\"3\":%lu,\"4\":%lu},"
+	       "\"fix6\":%d,\"flush_loop_records\":%lu,\"runs_with_flush_loop_records\":%lu}\n",
 	    runs_ok, recs, tot[0], tot[1], tot[2], tot[3], tot[4], tot[5], mism, zero_rounds, one_round, many_rounds,
 	    max_rounds, bytes, corrupt, scripts, scripts_hung, hangs, crashes, gave_up, oracle, by_mode[0], by_mode[1],
-	    by_mode[2], by_mode[3], by_mode[4], by_mode[5], by_mode[6], by_thr[1], by_thr[2], by_thr[3], by_thr[4]);
+	    by_mode[2], by_mode[3], by_mode[4], by_mode[5], by_mode[6], by_thr[1], by_thr[2], by_thr[3], by_thr[4],
+	    tree_fix6, flush_recs, flush_runs);
 	return 0;
 }
